@@ -37,7 +37,7 @@ OutOf(ev) ==
 
 \* the logged observation must be the projection of the state after the step
 ObsOK(ev) ==
-    /\ E("C35") => ev.lstat = ExpStatus'
+    /\ E("C35") => ev.lstat \in AllowedStatus'
     /\ ev.encrypted = enc'
 
 \* "... is answered with Pairing Failed and returns pairing to idle"
@@ -68,7 +68,7 @@ TInit == InitWith([kind |-> "legacy", in |-> 0, out |-> 0, mitm |-> FALSE, bond 
 \* the state in which an event was rejected (for the signature of the finding)
 Context == [phase |-> phase, fam |-> fam, alg |-> alg, mconf |-> mconf, ea |-> ea, user |-> user, shown |-> shown,
             pairedOk |-> pairedOk, authOk |-> authOk, enc |-> enc, budget |-> budget, dbLesc |-> dbLesc, dbNew |-> dbNew,
-            pre |-> cfg.pre, expstatus |-> ExpStatus]
+            pre |-> cfg.pre, last |-> last, expstatus |-> ExpStatus]
 
 TNext ==
     \/ /\ l <= Len(Tr)
